@@ -130,7 +130,7 @@ def classify_exception(e):
 class ImplMonitor(object):
     def __init__(self):
         silence()
-        self.dir = tempfile.mkdtemp(prefix="verif-c18-", dir=_scratch_base())
+        self.dir = tempfile.mkdtemp(prefix="verif-c18-[site-a]*?-", dir=_scratch_base())   # (a directory name is a name, not a pattern)
         self.builtin_mutated = False       # a built-in policy OBJECT was modified in place
         self.reset()
 
